@@ -345,4 +345,28 @@ theorem countColon_strict {ref : List Char} {c1 r1 c2 r2 : Nat} (h : RangeStrict
   simp only [hc, if_true, List.length_cons]
   omega
 
+theorem colname_nocolon {a : List Char} {x : Int} (h : columnNameToNumber a = .ok x) :
+    ∀ c ∈ a, isColon c = false := by
+  obtain ⟨_, v, hv, _, _⟩ := (columnNameToNumber_ok_iff a x).mp h
+  intro c hc
+  exact isLetter_not_colon (colRawAux_some_letters hv c hc)
+
+/-- on a well-formed merged-cell list the scan never fails -/
+theorem redirectScan_total (p : Cell) (canon : List Char) (ms : List (List Char))
+    (h : ∀ ref ∈ ms, ∃ c1 r1 c2 r2, RangeStrict ref c1 r1 c2 r2) :
+    ∃ a, redirectScan p canon ms = .ok a := by
+  induction ms with
+  | nil => exact ⟨canon, rfl⟩
+  | cons ref rest ih =>
+    obtain ⟨c1, r1, c2, r2, hs⟩ := h ref (by simp)
+    have ih' := ih (fun x hx => h x (by simp [hx]))
+    have hdec := (rangeRef_ok_iff ref _ _ _ _).mpr ⟨c1, r1, c2, r2, rfl, rfl, rfl, rfl, hs⟩
+    simp only [redirectScan]
+    by_cases he : ref.isEmpty = true
+    · simp only [he, if_true]; exact ih'
+    · simp only [he, Bool.false_eq_true, if_false, countColon_strict hs, bne_self_eq_false, hdec]
+      by_cases hin : cellInRange p (sortCoordinates ((c1 : Int), (r1 : Int), (c2 : Int), (r2 : Int))) = true
+      · simp only [hin, if_true]; exact ⟨_, rfl⟩
+      · simp only [hin, Bool.false_eq_true, if_false]; exact ih'
+
 end XlModel.Ref
